@@ -226,7 +226,7 @@ CORPUS = [
     # F9: cycle through objects that share an id
     ('F9 cycle through shared ids', [T(1), T(2), T(1), ['SetLinks', PR, 1, [2]], ['SetLinks', PR, 2, [0]], ['SetLinks', PR, 0, [1]],
                                      ['OpShift', SU, 1, [0]], ['LnAppend', PR, 0, 1]]),
-    # F10 (open): constructor with several relation arguments
+    # F10 (repaired by 0693848): constructor with several relation arguments
     ('F10 constructor', [T(1), ['NewTaskRel', 2, 'a', 0, None, [], []], ['NewTaskRel', 3, 'b', 0, None, [], [0]]]),
     ('F10 constructor, accepted', [T(1), T(2), T(3), ['NewTaskRel', 4, 'ab', 0, [1], [2], []], ['NewTaskRel', 5, 'b', 3, [], [], [2]]]),
     ('F10 constructor rejected before anything is attached', [T(1), ['NewTaskRel', 1, 'a', 0, None, [], []],
